@@ -181,7 +181,8 @@ def hc_dict(c):
 
 
 def sc_dict(c):
-    return {"err_fn": S.real("err_fn", pos=True), "err_xi": S.real("err_xi", pos=True), "err_phi": S.real("err_phi", pos=True)}
+    # a plain dict written by the user: the keys may come in any order (here deliberately not the documented one)
+    return {"err_phi": S.real("err_phi", pos=True), "err_fn": S.real("err_fn", pos=True), "err_xi": S.real("err_xi", pos=True)}
 
 
 def ssi_algo(c, cls, multi=False):
